@@ -165,42 +165,47 @@ theorem export_full_after_truncate (s : Store) (n id : Nat) (tx : TxEnts)
       exact hr' e he
     simp [this]
 
-/-- **Lock discipline, the exits that are fine**: whenever the entry loop of `ExportTx` ends with
-anything but the "partially truncated" error, `_valBsMux` has been released. -/
-theorem export_releases_lock_partial (rs : List Rd) (i : Nat) (tr : Bool)
-    (h : (exportLoop i tr rs).out ≠ .errPartial) : (exportLoop i tr rs).locked = false := by
-  cases hl : (exportLoop i tr rs).locked with
-  | false => rfl
-  | true => exact absurd ((exportLoop_locked_iff rs i tr).mp hl) h
+/-- **Lock discipline.** Every exit of the entry loop of `ExportTx` — all values, all digests, a read
+error, and both "partially truncated transaction" errors — has released `_valBsMux`. -/
+theorem export_releases_lock (rs : List Rd) (i : Nat) (tr : Bool) : (exportLoop i tr rs).locked = false :=
+  exportLoop_unlocked rs i tr
 
-/-- FULL STATEMENT THAT FAILS ON THE CURRENT CODE: `∀ rs i tr, (exportLoop i tr rs).locked = false`.
-**Finding F4 (witness of the negation).** Both "partially truncated transaction" exits return with
-`_valBsMux` held; and there is a history reaching them: chunk size 64, one value log,
-tx1 = values of 60, 10, 30 bytes (the third lies in chunk 1), tx2, tx3; `TruncateUptoTx(2)` removes
-chunk 0; `ExportTx(1)` answers "partially truncated" and keeps the mutex; every later `ExportTx` of
-a tx with entries — here tx 2, which is `≥ n` — blocks. -/
-theorem export_leaks_lock :
-    (∀ rs i tr, (exportLoop i tr rs).out = .errPartial → (exportLoop i tr rs).locked = true) ∧
-    (let s : Store := { F := 64, maxIO := 1,
-                        txs := [appendValues 1 0 [60, 10, 30], appendValues 1 100 [10], appendValues 1 110 [100]],
-                        vlogs := fun _ => { cur := 3, offset := 210, present := [0, 1, 2, 3] } }
-     let s1 := (truncateUpto s 2).store
-     (s1.exportTx 2).2 = .values ∧
-     (s1.exportTx 1).2 = .errPartial ∧ (s1.exportTx 1).1.valBsLocked = true ∧
-     ((s1.exportTx 1).1.exportTx 2).2 = .blocked ∧ ((s1.exportTx 1).1.exportTx 3).2 = .blocked) := by
-  refine ⟨fun rs i tr h => (exportLoop_locked_iff rs i tr).mpr h, ?_⟩
+/-- … hence `ExportTx` hands the store back with the mutex free, whatever it answers: by `export_total`
+no sequence of `ExportTx` calls ever blocks. -/
+theorem export_keeps_mutex_free (s : Store) (id : Nat) (h : s.valBsLocked = false) :
+    (s.exportTx id).1.valBsLocked = false := by
+  unfold Store.exportTx
+  split
+  · exact h
+  · split
+    · exact h
+    · split
+      · exact h
+      · simp only [h, Bool.false_eq_true, if_false]
+        exact exportLoop_unlocked _ _ _
+
+/-- The histories that used to leak the mutex (former finding F4).  Chunk size 64, one value log,
+tx1 = values of 60, 10, 30 bytes (the third lies in chunk 1), tx2, tx3; `TruncateUptoTx(2)` removes chunk 0:
+`ExportTx(1)` answers "partially truncated", the mutex is free, and tx 2 and tx 3 are exported in full. -/
+example :
+    let s : Store := { F := 64, maxIO := 1,
+                       txs := [appendValues 1 0 [60, 10, 30], appendValues 1 100 [10], appendValues 1 110 [100]],
+                       vlogs := fun _ => { cur := 3, offset := 210, present := [0, 1, 2, 3] } }
+    let s1 := (truncateUpto s 2).store
+    (s1.exportTx 1).2 = .errPartial ∧ (s1.exportTx 1).1.valBsLocked = false ∧
+    ((s1.exportTx 1).1.exportTx 2).2 = .values ∧ ((s1.exportTx 1).1.exportTx 3).2 = .values := by
   decide
 
-/-- The same leak without any chunk straddling: a wholly truncated tx that contains an empty value
-next to a non-empty one (either order) takes a "partially truncated" exit, because an empty value
-always "reads" fine. -/
-theorem export_leaks_lock_empty_value :
-    exportLoop 0 false [.eof, .ok] = ⟨.errPartial, true⟩ ∧ exportLoop 0 false [.ok, .eof] = ⟨.errPartial, true⟩ ∧
+/-- The same without any chunk straddling: a wholly truncated tx that contains an empty value next to a
+non-empty one (either order) takes a "partially truncated" exit, because an empty value always "reads" fine;
+later exports are served. -/
+example :
+    exportLoop 0 false [.eof, .ok] = ⟨.errPartial, false⟩ ∧ exportLoop 0 false [.ok, .eof] = ⟨.errPartial, false⟩ ∧
     (let s : Store := { F := 64, maxIO := 1,
                         txs := [appendValues 1 0 [30, 0], appendValues 1 30 [60], appendValues 1 90 [60]],
                         vlogs := fun _ => { cur := 2, offset := 150, present := [0, 1, 2] } }
      let s1 := (truncateUpto s 3).store
-     (s1.exportTx 1).2 = .errPartial ∧ ((s1.exportTx 1).1.exportTx 3).2 = .blocked) := by
+     (s1.exportTx 1).2 = .errPartial ∧ ((s1.exportTx 1).1.exportTx 3).2 = .values) := by
   decide
 
 /-- FULL STATEMENT THAT FAILS ON THE CURRENT CODE: `truncate_safe` for a tx that commits AFTER the
